@@ -143,26 +143,51 @@ def rule_routing(ctx, cfg, r, r_strategy):
     fb = c.fn("deflate::core::flush_block")
     sites = call_sites(fb, "deflate::core::compress_block")
     forced = 0
+    # decided on paths: evaluate flush_block from a few dominators above each call (so that the computation of the `static` argument
+    # is part of the region); on every path on which the argument may be false, the facts must say FORCE_ALL_STATIC_BLOCKS is clear
     for bb, t in sites:
-        e = local_expr(c, fb, bb, t["args"][3])
-        if is_const(e) and const_val(e) == 1:
+        doms = fb.dominators().get(bb, {bb})
+        chain = sorted(doms, key=lambda b: len(fb.dominators().get(b, ())))
+        okk = None
+        for back in (6, 10, 16):
+            start = chain[max(0, len(chain) - back)]
+            try:
+                rows_ = paths.Evaluator(c, effects=E, max_blocks=40, max_paths=4000).run(fb, start_bb=start)
+            except paths.PathLimit:
+                continue
+            seen_call = False
+            okk = True
+            for x in rows_:
+                cb = [e for e in calls_named(x, "deflate::core::compress_block")]
+                if not cb:
+                    continue
+                seen_call = True
+                arg = cb[0][2][3]
+                av = ISet.of(const_val(arg)) if is_const(arg) else vs(x, arg)
+                if not av.contains(0):
+                    continue                    # static on this path
+                flag_clear = False
+                for a, s_ in x.atoms:
+                    for st_ in paths.subterms(a):
+                        if st_ and st_[0] == "bin" and st_[1] == "BitAnd" and is_const(st_[3]) and const_val(st_[3]) == STATIC and \
+                                paths.is_load_of(st_[2], "flags", "ParamsOxide") and vs(x, st_).single() == 0:
+                            flag_clear = True
+                if not flag_clear:
+                    # the argument may itself be (a function of) the flag test: assume the flag set and re-decide the argument
+                    fts = [st_ for st_ in paths.subterms(arg) if st_ and st_[0] == "bin" and st_[1] == "BitAnd" and is_const(st_[3]) and
+                           const_val(st_[3]) == STATIC and paths.is_load_of(st_[2], "flags", "ParamsOxide")]
+                    if fts and arg[0] == "bin" and arg[1] in ("Ne", "Eq", "Gt", "Ge", "Lt", "Le"):
+                        f2 = x.facts.copy()
+                        if f2.constrain(fts[0], ISet.of(STATIC)) and f2.decide_cmp(arg[1], arg[2], arg[3]) == 1:
+                            flag_clear = True
+                if not flag_clear:
+                    okk = False
+            if seen_call and okk:
+                break
+            if seen_call and not okk and back == 16:
+                break
+        if okk:
             forced += 1
-        elif e[0] == "var":
-            # use_static = (flags & STATIC != 0) || total_bytes < 48 : a two-definition bool; check both defs
-            defs = [d for d in fb.defs().get([i for i, l in enumerate(fb.locals) if l.get("name") == e[1]][0], [])]
-            consts = []
-            for (b2, i2) in defs:
-                rv = fb.blocks[b2]["s"][i2]["a"][1]
-                consts.append(local_expr(c, fb, b2, rv["use"]) if "use" in rv else None)
-            # the def assigning `true` must be under the STATIC flag atom
-            ok_flag = False
-            for (b2, i2), cv in zip(defs, consts):
-                if cv is not None and is_const(cv) and const_val(cv) == 1:
-                    for a, s in dominating_atoms(c, fb, b2):
-                        if a[0] == "bin" and a[1] == "Ne" and a[2][0] == "bin" and a[2][1] == "BitAnd" and const_val(a[2][3]) == STATIC and s.single() == 1:
-                            ok_flag = True
-            if ok_flag:
-                forced += 1
     if okst and forced == len(sites) and sites:
         r_strategy.ok(fb.name, "static-forcing", "FORCE_ALL_STATIC_BLOCKS makes use_static true at every compress_block call; dynamic header only when !static")
     else:
@@ -214,10 +239,20 @@ def rule_routing(ctx, cfg, r, r_strategy):
     else:
         r_strategy.fail(cn.name, "rle-branch", "compress_normal's run-length branch can use the hash search or a distance other than 1 (%s)" % rle_ok)
     for x in rows:
+        # freshly found match lengths (terms built on a call result) that this path has proved to be at most 5 — by whatever test
+        # (`<= 5`, `< 6`, `!(>= 6)`): decided on the value set of the term
+        shorts = []
         for a, s in x.atoms:
-            if a[0] == "bin" and a[1] == "Le" and is_const(a[3]) and const_val(a[3]) == 5 and s.single() == 1 and \
-                    paths.term_contains(a[2], lambda y: y[0] == "call"):
-                fl = [q for q, sq in x.atoms if q[0] == "bin" and q[1] == "Ne" and q[2][0] == "bin" and q[2][1] == "BitAnd" and const_val(q[2][3]) == FILT and sq.single() == 1]
+            if a[0] == "bin" and a[1] in ("Le", "Lt", "Gt", "Ge") and is_const(a[3]) and paths.term_contains(a[2], lambda y: y[0] == "call"):
+                hi = vs(x, a[2]).hi()
+                if hi is not None and hi <= 5 and a[2] not in shorts:
+                    shorts.append(a[2])
+        for a2 in shorts:
+            a = ("bin", "Le", a2, ("int", 5), "bool")
+            if True:
+                # FILTER_MATCHES set on this path (value set of the masked flags excludes 0)
+                fl = [q for q, sq in x.atoms for stq in paths.subterms(q)
+                      if stq and stq[0] == "bin" and stq[1] == "BitAnd" and is_const(stq[3]) and const_val(stq[3]) == FILT and not vs(x, stq).contains(0)]
                 if fl:
                     rm = calls_named(x, "deflate::core::record_match")
                     short = [e for e in rm if e[2][2] == a[2]]
@@ -240,6 +275,21 @@ def rule_limits(ctx, cfg, r):
         a = [local_expr(c, f, bb, x) for x in t["args"][1:4]]
         if all(is_const(q) for q in a):
             got[const_val(a[0])] = (const_val(a[1]), const_val(a[2]))
+    # each table is rebuilt on every path through start_dynamic_block (optimize_table is also what clears the code sizes of the
+    # previous block: a skipped rebuild leaves the previous block's lengths in this block's header)
+    cond = []
+    # success exits: the blocks that build `Ok(())` (the `?` error exits of the code-length packing leave earlier)
+    ok_blocks = [b for b, blk in enumerate(f.blocks) for st_ in blk["s"]
+                 if "a" in st_ and not st_["a"][0]["p"] and st_["a"][0]["l"] == 0 and "agg" in st_["a"][1] and st_["a"][1]["agg"].get("variant") == "Ok"]
+    for bb, t in call_sites(f, "HuffmanOxide::optimize_table"):
+        a0 = local_expr(c, f, bb, t["args"][1])
+        if not ok_blocks or not all(f.dominates(bb, rb) for rb in ok_blocks):
+            cond.append(const_val(a0) if is_const(a0) else tstr(a0))
+    if cond:
+        r.fail(f.name, "tables-rebuilt", "optimize_table for table(s) %s is not called on every path through start_dynamic_block: the code sizes of the "
+               "previous block would be packed into this block's header" % cond)
+    else:
+        r.ok(f.name, "tables-rebuilt", "all three code tables are rebuilt unconditionally for every dynamic block")
     if got == want_opt:
         r.ok(f.name, "code-size-limits", "length-limited codes: 15 / 15 / 7 bits for the three alphabets")
     else:
